@@ -205,7 +205,8 @@ func (r *Run) Fail(sig, caseID string, detail any) {
 		_ = os.MkdirAll(dir, 0o755)
 		name := fmt.Sprintf("%s-%d.json", sanitize(sig), r.violSigs[sig])
 		v.Replay = filepath.Join(dir, name)
-		b, _ := json.MarshalIndent(map[string]any{"property": r.ID, "sig": sig, "case_id": caseID, "tier": r.Tier, "detail": detail}, "", " ")
+		b, _ := json.MarshalIndent(map[string]any{"property": r.ID, "sig": sig, "case_id": caseID, "tier": r.Tier, "detail": detail,
+			"generator_options": strings.TrimSpace(os.Getenv("VERIF_GEN_OPTS"))}, "", " ")
 		_ = os.WriteFile(v.Replay, b, 0o644)
 		r.viol = append(r.viol, v)
 	}
